@@ -239,6 +239,14 @@ type c08Plan struct {
 	Timeout   time.Duration `json:"timeout"`
 	Nodes     []c08NodePlan `json:"nodes"`
 	CancelAt  time.Duration `json:"cancel_at,omitempty"` // caller's context is cancelled this long after the call (0: never)
+	// Prelude: earlier submissions on the same service instance (one element each), in which the nodes
+	// marked in PreludeHang do not answer; the judged submission follows Gap after the last of them returned.
+	Prelude     []string      `json:"prelude,omitempty"`
+	PreludeHang []bool        `json:"prelude_hang,omitempty"`
+	Gap         time.Duration `json:"gap,omitempty"`
+	// VersionHangs: a node that does not answer submissions does not answer the version query either
+	// (it is only served from the client library's cache after a first success).
+	VersionHangs bool `json:"version_hangs,omitempty"`
 }
 
 var c08Timeouts = []time.Duration{100 * time.Millisecond, time.Second, 2 * time.Second, 5 * time.Second}
@@ -304,6 +312,19 @@ func c08Gen(kind string, imm bool) func(p *simrt.Tape) any {
 			}
 			pl.Nodes = append(pl.Nodes, n)
 		}
+		if !imm && p.Pct(30) {
+			pl.VersionHangs = true
+		}
+		if !imm && pl.Conc >= nn && nn > 1 && p.Pct(25) {
+			for i, n := 0, p.Range(1, 3); i < n; i++ {
+				pl.Prelude = append(pl.Prelude, c08Kinds[p.Pick(len(c08Kinds))])
+			}
+			for i := 0; i < nn; i++ {
+				pl.PreludeHang = append(pl.PreludeHang, p.Pct(60))
+			}
+			pl.PreludeHang[p.Pick(nn)] = false // somebody accepts, so that the prelude returns at once
+			pl.Gap = []time.Duration{0, time.Millisecond, pl.Timeout / 2}[p.Pick(3)]
+		}
 		if !p.Pct(92) {
 			// never equal to a node latency, so that "answer or cancellation first" is not a tie
 			pl.CancelAt = []time.Duration{2, pl.Timeout/4 + 3, pl.Timeout - 5}[p.Pick(3)]
@@ -347,10 +368,17 @@ func (n *c08Node) Address() string { return n.name }
 func (n *c08Node) IsActive() bool  { return true }
 func (n *c08Node) IsSynced() bool  { return true }
 
-func (n *c08Node) NodeVersion(_ context.Context, _ *api.NodeVersionOpts) (*api.Response[string], error) {
-	// served from the client library's cache: no latency, no failure
+func (n *c08Node) NodeVersion(ctx context.Context, _ *api.NodeVersionOpts) (*api.Response[string], error) {
+	// normally served from the client library's cache: no latency, no failure
 	simrt.Yield(n.name + "/NodeVersion")
 	simrt.Crit(func() { n.rt.version[n.idx]++ })
+	if np := n.rt.pl.Nodes[n.idx]; n.rt.pl.VersionHangs && np.Base.Act == "hang" && len(np.Over) == 0 {
+		simrt.Probe("fault:version-query-hangs")
+		if err := simrt.Sleep(ctx, ClientTimeout, n.name+"/NodeVersion"); err != nil {
+			return nil, err
+		}
+		return nil, errors.New("version query timed out")
+	}
 	return &api.Response[string]{Data: c08Versions[n.client], Metadata: map[string]any{}}, nil
 }
 
@@ -368,6 +396,24 @@ func (n *c08Node) idsOf(count int, at func(i int) any) []int {
 
 func (n *c08Node) submit(ctx context.Context, ids []int) error {
 	rt := n.rt
+	prelude := len(ids) > 0
+	for _, id := range ids {
+		if id >= 0 {
+			prelude = false
+		}
+	}
+	if prelude {
+		// an element of an earlier submission (not recorded): answered at once, or not at all
+		if n.idx < len(rt.pl.PreludeHang) && rt.pl.PreludeHang[n.idx] {
+			simrt.Probe("fault:prelude-hang")
+			if err := simrt.Sleep(ctx, ClientTimeout, n.name+"/prelude"); err != nil {
+				return err
+			}
+			return errors.New("timed out")
+		}
+		simrt.Yield(n.name + "/prelude")
+		return nil
+	}
 	c := &c08Call{node: n.idx, ids: ids, startT: simrt.Now(), startStep: simrt.Step()}
 	simrt.Crit(func() {
 		c.idx = rt.counts[n.idx]
@@ -569,6 +615,12 @@ func c08Exec(plan any, sched *simrt.Tape) *sim.Outcome {
 		}
 		// the submission happens some way into the run, not at time zero
 		simrt.Sleep(ctx, 3*time.Second, "c08/warmup")
+		for _, k := range pl.Prelude {
+			_ = c08Payload(k, 1, map[any]int{})(ctx, svc)
+		}
+		if len(pl.Prelude) > 0 {
+			simrt.Sleep(ctx, pl.Gap, "c08/gap")
+		}
 		cctx, cancel := context.WithCancel(ctx)
 		defer cancel()
 		simrt.Go("caller", func() {
@@ -675,7 +727,8 @@ func c08Oracle(h *c08History, out *sim.Outcome) *simrt.Violation {
 		if bad := c08Coverage(pl.Size, per[i]); bad != "" {
 			return Viol("C08/payload-not-delivered-exactly-once", "node bn%d, %s payload of %d, concurrency %d, %d calls: %s", i, pl.Kind, pl.Size, pl.Conc, len(per[i]), bad)
 		}
-		if enough {
+		// (a node whose version query hangs is offered the submission only once that query has given up)
+		if np := pl.Nodes[i]; enough && !(pl.VersionHangs && np.Base.Act == "hang" && len(np.Over) == 0) {
 			for _, c := range per[i] {
 				if c.startT > deadline {
 					return Viol("C08/delivery-after-timeout", "node bn%d was offered elements %v only at %v, the call started at %v with timeout %v (concurrency %d >= %d nodes)", i, c.ids, c.startT, h.start, pl.Timeout, pl.Conc, len(pl.Nodes))
@@ -685,6 +738,20 @@ func c08Oracle(h *c08History, out *sim.Outcome) *simrt.Violation {
 	}
 	if chunked {
 		out.Probes["chunked-delivery"]++
+	}
+	// 1b. a node that does not answer (now or in an earlier submission) never delays delivery to the others:
+	// with a slot for every node, each node is offered the submission the moment it is made
+	if enough && !chunked {
+		for i := range pl.Nodes {
+			np := pl.Nodes[i]
+			if len(per[i]) != 1 || (pl.VersionHangs && np.Base.Act == "hang" && len(np.Over) == 0) {
+				continue
+			}
+			if c := per[i][0]; c.startT > h.start {
+				return Viol("C08/delivery-delayed", "node bn%d was offered the %s submission only at %v, the call was made at %v (concurrency %d >= %d nodes; prelude %v hang %v; version query hangs %v)", i, pl.Kind, c.startT, h.start, pl.Conc, len(pl.Nodes), pl.Prelude, pl.PreludeHang, pl.VersionHangs)
+			}
+			out.Probes["prompt-delivery-checked"]++
+		}
 	}
 	// 2. verdict.  A node accepted the submission if every one of its calls
 	// was accepted or rejected only for tolerated reasons; strictly = all
